@@ -107,6 +107,8 @@ pub enum SOp {
     Env { func: u8, len: u32, off: u32 },
     /// `upgrade(module_ref)`: always interrupts; the chain answers as scripted.
     Upgrade { resp: Response },
+    /// `count` calls of log_event(len bytes) in a loop; the result is the sum of their return values.
+    LogBurst { count: u32, len: u32 },
     /// `memory.grow(pages)`; the module declares room for two more pages, larger requests fail (and
     /// are charged all the same).
     MemGrow { pages: u32 },
@@ -158,6 +160,10 @@ pub struct VPlan {
     /// host's charge for the new pages is the very last charge of the transaction.
     #[serde(default)]
     pub tail_grow: Option<u32>,
+    /// The transaction is the *initialisation* of an instance: scripts[0] runs as `init_c` through
+    /// `v1::invoke_init` on an empty state. Functions that exist only for receive methods trap.
+    #[serde(default)]
+    pub init: bool,
 }
 
 // ---------------------------------------------------------------------------
@@ -205,7 +211,7 @@ const ZERO_BASE: u32 = 0xD000; // 12 KiB that no script touches: source of write
 const MAX_RETURN_VALUE_P4: usize = 16384;
 
 // host function table: (name, params, result)
-const HOSTS: [(&str, &[Ty], Option<Ty>); 33] = [
+const HOSTS: [(&str, &[Ty], Option<Ty>); 34] = [
     ("state_lookup_entry", &[Ty::I32, Ty::I32], Some(Ty::I64)),
     ("state_create_entry", &[Ty::I32, Ty::I32], Some(Ty::I64)),
     ("state_delete_entry", &[Ty::I32, Ty::I32], Some(Ty::I32)),
@@ -239,10 +245,11 @@ const HOSTS: [(&str, &[Ty], Option<Ty>); 33] = [
     ("verify_ecdsa_secp256k1_signature", &[Ty::I32, Ty::I32, Ty::I32], Some(Ty::I32)),  // 30
     ("get_policy_section", &[Ty::I32, Ty::I32, Ty::I32], Some(Ty::I32)),                // 31
     ("upgrade", &[Ty::I32], Some(Ty::I64)),                                             // 32
+    ("get_init_origin", &[Ty::I32], None),                                              // 33
 ];
 
-/// Number of `SOp::Env` functions (host indices 19..=31).
-const ENV_FUNCS: u8 = 13;
+/// Number of `SOp::Env` functions (host indices 19..=31, and 33 = get_init_origin as function 13).
+const ENV_FUNCS: u8 = 14;
 /// The sender policy bytes every simulated invocation carries.
 fn policy_bytes() -> Vec<u8> { (100..140u8).collect() }
 /// Where the message of hash / signature calls comes from: the 64 pattern bytes at 0x100, or zeros.
@@ -396,6 +403,16 @@ pub fn emit_module(plan: &VPlan) -> Vec<u8> {
                 ));
                 continue;
             }
+            if let SOp::LogBurst { count, len } = op {
+                // local 2 = loop counter, local 3 = sum of the results
+                body.push(Stmt::LocalSet(3, Expr::I32(0)));
+                body.push(Stmt::Loop(2, (*count).max(1), vec![Stmt::LocalSet(
+                    3,
+                    Expr::Bin(0x6a, Box::new(Expr::LocalGet(3)), Box::new(Expr::Host(15, vec![i32c(DATA_BASE), i32c(*len)]))),
+                )]));
+                body.push(Stmt::Store(0x37, 0, res_addr, Expr::Un(0xad, Box::new(Expr::LocalGet(3)))));
+                continue;
+            }
             if let SOp::MemGrow { pages } = op {
                 body.push(Stmt::Store(0x37, 0, res_addr, Expr::Un(0xad, Box::new(Expr::MemoryGrow(Box::new(i32c(*pages)))))));
                 continue;
@@ -442,9 +459,10 @@ pub fn emit_module(plan: &VPlan) -> Vec<u8> {
                     9 => (28, vec![i32c(msg_src(*len)), i32c(*len), i32c(rb)]),
                     10 => (29, vec![i32c(0x100), i32c(0x100), i32c(msg_src(*len)), i32c(*len)]),
                     11 => (30, vec![i32c(0x100), i32c(0x100), i32c(0x100)]),
-                    _ => (31, vec![i32c(rb), i32c((*len).min(64)), i32c(*off)]),
+                    12 => (31, vec![i32c(rb), i32c((*len).min(64)), i32c(*off)]),
+                    _ => (33, vec![i32c(rb)]),
                 },
-                SOp::DeepCall { .. } | SOp::MemGrow { .. } => unreachable!(),
+                SOp::DeepCall { .. } | SOp::MemGrow { .. } | SOp::LogBurst { .. } => unreachable!(),
                 SOp::OutOfBounds { func, ptr, len } => match func % 10 {
                     0 => (0, vec![i32c(*ptr), i32c(*len)]),
                     1 => (1, vec![i32c(*ptr), i32c(*len)]),
@@ -500,7 +518,7 @@ pub fn emit_module(plan: &VPlan) -> Vec<u8> {
                 params: vec![Ty::I64],
                 result: Some(Ty::I32),
             },
-            locals: vec![Ty::I32],
+            locals: vec![Ty::I32, Ty::I32, Ty::I32],
             body,
             ret:    Some(Expr::I32(script.code)),
         });
@@ -516,7 +534,10 @@ pub fn emit_module(plan: &VPlan) -> Vec<u8> {
         body:   Vec::new(),
         ret:    Some(Expr::I32(0)),
     });
-    exports.push(("init_c".to_string(), plan.scripts.len() as u32));
+    exports.push((if plan.init { "init_d".to_string() } else { "init_c".to_string() }, plan.scripts.len() as u32));
+    if plan.init {
+        exports.push(("init_c".to_string(), 0));
+    }
     // helpers for DeepCall: $down(n, m) and $down2(m)
     let down = plan.scripts.len() as u32 + 1;
     let down2 = down + 1;
@@ -593,6 +614,8 @@ struct MIter {
     keys:    Vec<Vec<u8>>,
     pos:     usize,
     started: bool,
+    /// `next` has reported the end: what key_size / key_read deliver from now on is not specified
+    exhausted: bool,
 }
 
 #[derive(Clone, Default)]
@@ -628,6 +651,11 @@ struct MCtx<'a> {
     inspection: bool,
     /// current size of the linear memory of the running activation, in pages
     pages: u32,
+    /// the outermost activation is an init method
+    init: bool,
+    /// An operation used, as a handle, a result the interface does not specify (key size / key bytes
+    /// of an exhausted iterator): what happens next is not modelled, no verdict for this run.
+    unmodelled: bool,
     /// Events of the outermost activation, as the chain receives them: one section per
     /// state-affecting interrupt (transfer, call, upgrade) plus the final one; queries do not
     /// end a section. Each event is represented by its length.
@@ -747,8 +775,35 @@ fn model_run(plan: &VPlan, si: usize, st: &mut MState, ctx: &mut MCtx) -> MOutco
             HRef::Const(c) => *c,
         }
     };
+    let mut poisoned = vec![false; n];
     for i in 0..n {
         let op = &script.ops[i];
+        {
+            let refs: Vec<&HRef> = match op {
+                SOp::IterNext { it } | SOp::IterDelete { it } | SOp::IterKeySize { it } | SOp::IterKeyRead { it, .. } => vec![it],
+                SOp::EntryRead { e, .. } | SOp::EntryWrite { e, .. } | SOp::EntrySize { e } | SOp::EntryResize { e, .. } => vec![e],
+                _ => Vec::new(),
+            };
+            for h in refs {
+                if let HRef::Res(j) = h {
+                    if poisoned.get(*j).copied().unwrap_or(false) {
+                        ctx.unmodelled = true;
+                    }
+                }
+            }
+        }
+        if ctx.init {
+            // functions that exist only for receive methods are a runtime error in an init method
+            let receive_only = match op {
+                SOp::SelfBalance | SOp::InvokeSelf { .. } | SOp::InvokeOther { .. } | SOp::Upgrade { .. } | SOp::DeepCall { .. } => true,
+                SOp::Env { func, .. } => (1..=6).contains(&(func % ENV_FUNCS)),
+                SOp::OutOfBounds { func, .. } => func % 10 == 8,
+                _ => false,
+            };
+            if receive_only {
+                return MOutcome::Trap;
+            }
+        }
         let r: u64 = match op {
             SOp::Lookup { key } => {
                 ctx.min_energy += c_lookup(key.len() as u64);
@@ -822,6 +877,7 @@ fn model_run(plan: &VPlan, si: usize, st: &mut MState, ctx: &mut MCtx) -> MOutco
                         keys:    ks,
                         pos:     0,
                         started: false,
+                        exhausted: false,
                     }));
                     ((st.gen as u64) << 32) | (st.iters.len() as u64 - 1)
                 }
@@ -845,6 +901,7 @@ fn model_run(plan: &VPlan, si: usize, st: &mut MState, ctx: &mut MCtx) -> MOutco
                                 st.entries.push((k, uid));
                                 ((gen as u64) << 32) | (st.entries.len() as u64 - 1)
                             } else {
+                                im.exhausted = true;
                                 NONE64
                             }
                         }
@@ -882,6 +939,9 @@ fn model_run(plan: &VPlan, si: usize, st: &mut MState, ctx: &mut MCtx) -> MOutco
                     match st.iters.get(idx).and_then(|x| x.as_ref()) {
                         None => NONE32,
                         Some(im) => {
+                            if im.exhausted {
+                                poisoned[i] = true;
+                            }
                             if im.started && im.pos > 0 {
                                 im.keys[im.pos - 1].len() as u64
                             } else {
@@ -901,6 +961,9 @@ fn model_run(plan: &VPlan, si: usize, st: &mut MState, ctx: &mut MCtx) -> MOutco
                     match st.iters.get(idx).and_then(|x| x.as_ref()) {
                         None => NONE32,
                         Some(im) => {
+                            if im.exhausted {
+                                poisoned[i] = true;
+                            }
                             let key = if im.started && im.pos > 0 { &im.keys[im.pos - 1] } else { &im.prefix };
                             let c = copy_section(key, (*len).min(64), *off);
                             rbufs[i][..c.len()].copy_from_slice(&c);
@@ -1129,6 +1192,27 @@ fn model_run(plan: &VPlan, si: usize, st: &mut MState, ctx: &mut MCtx) -> MOutco
                 }
                 model_response(resp, ctx)
             }
+            SOp::LogBurst { count, len } => {
+                if DATA_BASE as u64 + *len as u64 > MEM * ctx.pages as u64 {
+                    return MOutcome::Trap;
+                }
+                let mut sum: u32 = 0;
+                for _ in 0..(*count).max(1) {
+                    if *len <= MAX_LOG_SIZE {
+                        ctx.min_energy += 500 + 1000 * *len as u64;
+                        if !ctx.limit_logs || ctx.logs < MAX_NUM_LOGS {
+                            ctx.logs += 1;
+                            if ctx.depth == 0 {
+                                ctx.sections.last_mut().unwrap().push(*len);
+                            }
+                            sum = sum.wrapping_add(1);
+                        }
+                    } else {
+                        sum = sum.wrapping_add(u32::MAX); // -1 each
+                    }
+                }
+                sum as u64
+            }
             SOp::MemGrow { pages } => {
                 // the host is paid for the announced pages before the growth is attempted
                 ctx.min_energy += 100 * *pages as u64;
@@ -1197,6 +1281,14 @@ fn model_run(plan: &VPlan, si: usize, st: &mut MState, ctx: &mut MCtx) -> MOutco
                     }
                     11 => {
                         ctx.min_energy += 100_000;
+                        0
+                    }
+                    13 => {
+                        // only init methods have an origin
+                        if !ctx.init {
+                            return MOutcome::Trap;
+                        }
+                        rbufs[i][..32].copy_from_slice(&[9u8; 32]);
                         0
                     }
                     _ => {
@@ -1427,18 +1519,33 @@ impl Chain<'_> {
         let mut result = {
             let inner = state.get_inner(&mut self.disk);
             let inst = InstanceState::new(&mut self.disk, inner);
-            v1::invoke_receive::<_, _, _, _, _, ReceiveContext<Vec<u8>>, ()>(
-                self.art.clone(),
-                ctx_for(&entry, *balance),
-                ReceiveInvocation {
-                    amount:       Amount::from_micro_ccd(0),
-                    receive_name: ReceiveName::new_unchecked(&name),
-                    parameter:    param,
-                    energy:       InterpreterEnergy { energy },
-                },
-                inst,
-                self.params,
-            )
+            let inv = ReceiveInvocation {
+                amount:       Amount::from_micro_ccd(0),
+                receive_name: ReceiveName::new_unchecked(&name),
+                parameter:    param,
+                energy:       InterpreterEnergy { energy },
+            };
+            if self.plan.protocol % 2 == 0 {
+                v1::invoke_receive::<_, _, _, _, _, ReceiveContext<Vec<u8>>, ()>(self.art.clone(), ctx_for(&entry, *balance), inv, inst, self.params)
+            } else {
+                // the way the node starts an execution: the context borrows its policy bytes and is
+                // converted to an owned one when the host is saved at the first interrupt
+                let owned = ctx_for(&entry, *balance);
+                let policies = policy_bytes();
+                let borrowed: ReceiveContext<&[u8]> = ReceiveContext {
+                    common:     v0::ReceiveContext {
+                        metadata:        owned.common.metadata,
+                        invoker:         owned.common.invoker,
+                        self_address:    owned.common.self_address,
+                        self_balance:    owned.common.self_balance,
+                        sender:          owned.common.sender,
+                        owner:           owned.common.owner,
+                        sender_policies: &policies[..],
+                    },
+                    entrypoint: owned.entrypoint.clone(),
+                };
+                v1::invoke_receive::<_, _, _, _, _, ReceiveContext<Vec<u8>>, ()>(self.art.clone(), borrowed, inv, inst, self.params)
+            }
         };
         loop {
             match result {
@@ -1796,6 +1903,10 @@ fn g_script(rng: &mut Rng, focus: VFocus, nscripts: usize, pool: &mut Vec<Vec<u8
                     len: *rng.pick(&[0u32, 1, 4, 64]),
                     off: *rng.pick(&[0u32, 0, 0, 1, 1, 2, 2, 40, u32::MAX]),
                 },
+                3 if rng.chance(1, 5) => SOp::LogBurst {
+                    count: *rng.pick(&[2u32, 63, 64, 65, 66, 130]),
+                    len:   *rng.pick(&[0u32, 1, 3, 513]),
+                },
                 3 => SOp::LogEvent {
                     len: *rng.pick(&[0u32, 1, 511, 512, 513, 4000]),
                 },
@@ -1851,7 +1962,43 @@ fn g_script(rng: &mut Rng, focus: VFocus, nscripts: usize, pool: &mut Vec<Vec<u8
     }
 }
 
-pub fn generate(rng: &mut Rng, _tier: Tier, focus: VFocus) -> VPlan {
+pub fn generate(rng: &mut Rng, tier: Tier, focus: VFocus) -> VPlan {
+    let mut p = generate_receive(rng, tier, focus);
+    if (focus == VFocus::Host || focus == VFocus::Energy) && rng.chance(1, 6) {
+        // initialisation of an instance: empty state, scripts[0] as the init method
+        p.init = true;
+        p.initial.clear();
+        p.from_disk = false;
+        // most init plans stay clear of receive-only functions (which trap), some do not
+        if rng.chance(4, 5) {
+            for s in p.scripts.iter_mut().take(1) {
+                // replaced in place so that references to earlier results stay valid
+                for op in s.ops.iter_mut() {
+                    let receive_only = match op {
+                        SOp::SelfBalance | SOp::InvokeSelf { .. } | SOp::InvokeOther { .. } | SOp::Upgrade { .. } | SOp::DeepCall { .. } => true,
+                        SOp::Env { func, .. } => (1..=6).contains(&(*func % ENV_FUNCS)),
+                        SOp::OutOfBounds { func, .. } => *func % 10 == 8,
+                        _ => false,
+                    };
+                    if receive_only {
+                        *op = if rng.coin() {
+                            SOp::Env {
+                                func: 13,
+                                len:  0,
+                                off:  0,
+                            }
+                        } else {
+                            SOp::ParamSize { i: rng.below(2) as u32 }
+                        };
+                    }
+                }
+            }
+        }
+    }
+    p
+}
+
+fn generate_receive(rng: &mut Rng, _tier: Tier, focus: VFocus) -> VPlan {
     let mut pool: Vec<Vec<u8>> = Vec::new();
     let mut tag = 0u8;
     let ninit = rng.urange(0, 6);
@@ -1876,6 +2023,7 @@ pub fn generate(rng: &mut Rng, _tier: Tier, focus: VFocus) -> VPlan {
         cuts: (0..rng.urange(1, 5)).map(|_| rng.range(0, 999) as u32).collect(),
         shrunk: false,
         tail_grow: if focus == VFocus::Energy && rng.chance(1, 4) { Some(rng.range(1, 2) as u32) } else { None },
+        init: false,
     }
 }
 
@@ -1906,7 +2054,88 @@ struct RunOut {
     query_with_logs: bool,
 }
 
+/// Initialisation of an instance: scripts[0] as `init_c` on an empty state.
+fn run_init_once(plan: &VPlan, art: &Art, energy: u64) -> RunOut {
+    concordium_wasm::machine::verif_hooks::reset(0);
+    let mut disk = SimDisk::new();
+    let params = params_for(plan.protocol);
+    let ctx = v0::InitContext {
+        metadata:        ChainMetadata {
+            slot_time: Timestamp::from_timestamp_millis(12345),
+        },
+        init_origin:     AccountAddress([9u8; 32]),
+        sender_policies: policy_bytes(),
+    };
+    let r = v1::invoke_init::<_, _, ()>(
+        &**art,
+        ctx,
+        v1::InitInvocation {
+            amount:    Amount::from_micro_ccd(0),
+            init_name: "init_c",
+            parameter: &plan.param,
+            energy:    InterpreterEnergy { energy },
+        },
+        params.limit_logs_and_return_values,
+        &mut disk,
+    );
+    let mut sections = Vec::new();
+    let (outcome, remaining, state) = match r {
+        Err(_) => (ROutcome::Trap, 0, None),
+        Ok(v1::InitResult::Success {
+            logs,
+            return_value,
+            remaining_energy,
+            mut state,
+            ..
+        }) => {
+            sections.push(logs.logs.iter().map(|l| l.len() as u32).collect());
+            let frozen = state.freeze(&mut disk, &mut EmptyCollector);
+            let all: Vec<(Vec<u8>, Vec<u8>)> = frozen.clone().into_iterator(&mut disk).collect();
+            let h = frozen.hash(&mut disk);
+            let hb: &[u8] = h.as_ref();
+            (
+                ROutcome::Done {
+                    code: 0,
+                    rv:   return_value,
+                },
+                remaining_energy.energy,
+                Some((all, hb.to_vec())),
+            )
+        }
+        Ok(v1::InitResult::Reject {
+            reason,
+            return_value,
+            remaining_energy,
+            ..
+        }) => (
+            ROutcome::Done {
+                code: reason,
+                rv:   return_value,
+            },
+            remaining_energy.energy,
+            None,
+        ),
+        Ok(v1::InitResult::Trap { remaining_energy, .. }) => (ROutcome::Trap, remaining_energy.energy, None),
+        Ok(v1::InitResult::OutOfEnergy { .. }) => (ROutcome::OutOfEnergy, 0, None),
+    };
+    RunOut {
+        outcome,
+        remaining,
+        state,
+        interrupts: 0,
+        reentries: 0,
+        rollbacks: 0,
+        origin_intact: true,
+        kind_mismatch: None,
+        sections,
+        query_with_logs: false,
+    }
+}
+
 fn run_once(plan: &VPlan, art: &Art, energy: u64) -> RunOut {
+    if plan.init {
+        return run_init_once(plan, art, energy);
+    }
     // chain-level runs are bounded by the engine's own energy accounting: no step limit of an
     // earlier machine-level run on this thread may linger
     concordium_wasm::machine::verif_hooks::reset(0);
@@ -1986,7 +2215,7 @@ fn viol(oracle: &str, sig: impl Into<String>, detail: String) -> Option<Violatio
 fn slot_in_focus(focus: VFocus, op: &SOp) -> bool {
     match focus {
         VFocus::Host | VFocus::Resume | VFocus::Energy => true,
-        VFocus::Handles => !matches!(op, SOp::ParamSize { .. } | SOp::ParamSection { .. } | SOp::LogEvent { .. } | SOp::WriteOutput { .. } | SOp::SelfBalance | SOp::OutOfBounds { .. } | SOp::Env { .. } | SOp::MemGrow { .. }),
+        VFocus::Handles => !matches!(op, SOp::ParamSize { .. } | SOp::ParamSection { .. } | SOp::LogEvent { .. } | SOp::WriteOutput { .. } | SOp::SelfBalance | SOp::OutOfBounds { .. } | SOp::Env { .. } | SOp::MemGrow { .. } | SOp::LogBurst { .. }),
     }
 }
 
@@ -2014,7 +2243,11 @@ fn op_name(op: &SOp) -> &'static str {
         SOp::InvokeOther { .. } => "invoke",
         SOp::Upgrade { .. } => "upgrade",
         SOp::MemGrow { .. } => "memory.grow",
-        SOp::Env { func, .. } => HOSTS[19 + (*func % ENV_FUNCS) as usize].0,
+        SOp::LogBurst { .. } => "log_event (burst)",
+        SOp::Env { func, .. } => match *func % ENV_FUNCS {
+            13 => "get_init_origin",
+            f => HOSTS[19 + f as usize].0,
+        },
         SOp::OutOfBounds { .. } => "out-of-bounds",
         SOp::DeepCall { .. } => "deep-call",
     }
@@ -2133,7 +2366,7 @@ pub fn execute(plan: &VPlan, rec: &mut Recorder) -> Option<Violation> {
     if plan.focus == VFocus::Host || plan.focus == VFocus::Handles || plan.focus == VFocus::Energy || (plan.focus == VFocus::Resume && has_deep) {
         let params = params_for(plan.protocol);
         let mut st = MState::default();
-        for (k, v) in &plan.initial {
+        for (k, v) in plan.initial.iter().filter(|_| !plan.init) {
             st.uid += 1;
             let uid = st.uid;
             st.map.insert(k.clone(), (v.clone(), uid));
@@ -2151,6 +2384,8 @@ pub fn execute(plan: &VPlan, rec: &mut Recorder) -> Option<Violation> {
             inspection: params.support_contract_inspection_queries,
             sections: vec![Vec::new()],
             pages: 1,
+            init: plan.init,
+            unmodelled: false,
             mem: Vec::new(),
             min_energy: 0,
             rv: Vec::new(),
@@ -2160,7 +2395,12 @@ pub fn execute(plan: &VPlan, rec: &mut Recorder) -> Option<Violation> {
         let _ = ctx.plan;
         let mo = model_run(plan, 0, &mut st, &mut ctx);
         let pfx = if plan.focus == VFocus::Handles { "handles" } else { "host" };
-        if plan.focus == VFocus::Energy {
+        if ctx.unmodelled {
+            rec.probe("unspecified_result_used_as_handle");
+        }
+        if ctx.unmodelled {
+            // no verdict from the model for this run (the determinism and budget oracles below still apply)
+        } else if plan.focus == VFocus::Energy {
             // C02 at chain level: the scheduled charges of the host calls and memory growth that the
             // transaction demonstrably made are a lower bound of what it was charged
             if let (MOutcome::Done(..), ROutcome::Done { .. }) = (&mo, &r0.outcome) {
@@ -2194,7 +2434,20 @@ pub fn execute(plan: &VPlan, rec: &mut Recorder) -> Option<Violation> {
             }
         } else {
         match (&mo, &r0.outcome) {
-            (MOutcome::Trap, ROutcome::Trap) => {}
+            (MOutcome::Trap, ROutcome::Trap) => {
+                // what the model saw charged up to the trap is still owed
+                let used = plan.energy - r0.remaining;
+                if plan.focus == VFocus::Host && used < ctx.min_energy {
+                    return viol(
+                        "energy",
+                        "host/undercharged-at-trap",
+                        format!(
+                            "the transaction trapped after being charged {} energy, but the scheduled charges of the host calls it made up to the trap add up to at least {}",
+                            used, ctx.min_energy
+                        ),
+                    );
+                }
+            }
             (MOutcome::Done(c, rvm), ROutcome::Done { code, rv }) => {
                 let used = plan.energy - r0.remaining;
                 if plan.focus == VFocus::Host && used < ctx.min_energy {
